@@ -19,7 +19,7 @@ def run(tier, wd):
     q = tier == "quick"
     # (1) bounded exhaustive, alphabet chosen so that many lines are accepted with several bound variables
     specs = g.family(p, 10 if q else 60, seed)
-    alphabet = ["x", "y", "--", "-ab", "-ov", "-o", "--out=w", "-a"] if q else ["x", "y", "--", "-ab", "-ov", "-o", "--out=w", "-a", "-eu"]
+    alphabet = ["x", " y ", "--", "-ab", "-ov", "-o", "--out=w ", "-a"] if q else ["x", "y", "--", "-ab", "-ov", "-o", "--out=w", "-a", "-eu"]
     triples = rc.enumerate_and_run(rep, wd, binpath, specs, alphabet, [[]] if q else [[], ["-e"]], 3 if q else 4, "enum")
     cnt = collections.Counter()
     nontrivial = set()
@@ -40,7 +40,8 @@ def run(tier, wd):
         tries = n = 0
         while n < per_spec and tries < per_spec * 5:
             tries += 1
-            items = g.sample_items(p, s["ast"], rnd)
+            # (values and positionals with surrounding blanks: every token must arrive unchanged)
+            items = g.sample_items(p, s["ast"], rnd, vals=("v", "w2", "u", " v ", "w\t"), poss=("x", "y", "z1", " p", "q "))
             if rnd.random() < 0.5:
                 items = g.shuffle_runs(items, rnd)
             if len(items) > 9 or len(items) < 2:
